@@ -264,22 +264,86 @@ def space() -> ObsSpace:
     return _SP["s"]
 
 
+def _shard_sequences(shard: int, nshards: int, maxlen: int):
+    """ALL observer sequences of length <= maxlen from every initial state, followed by each
+    copier - enumerated explicitly, without state merging.  (Merging on the instance's
+    __dict__ is blind to state hidden outside the instance: a class-level or module-level
+    memo makes an observer impure only on its second call.)"""
+    import itertools
+    from vf.core.runner import Tally
+    sp = space()
+    t = Tally()
+    inits = sp.initial_histories()
+    obs = [["obs", o] for o in OBSERVERS]
+    i = 0
+    for h0 in inits:
+        base_obj, _ = sp.replay(h0)
+        try:
+            baseline = sp.observable(base_obj)
+        except Exception:
+            continue
+        for ln in range(1, maxlen + 1):
+            for seq in itertools.product(range(len(obs)), repeat=ln):
+                i += 1
+                if i % nshards != shard:
+                    continue
+                hist = h0 + [obs[j] for j in seq]
+                t.inc("sequences")
+                try:
+                    obj, _ = sp.replay(hist)
+                    after = sp.observable(obj)
+                except Exception as e:
+                    t.violate(Violation(["purity", "obs-seq", obs[seq[-1]][1], "raised", type(e).__name__],
+                                        f"history={hist!r}: {type(e).__name__}: {e}"[:400], {"history": hist}))
+                    continue
+                t.inc("transitions", ln)
+                diff = [k for k in baseline if baseline[k] != after[k]]
+                if diff:
+                    t.violate(Violation(["purity", "obs-seq", obs[seq[-1]][1], "changed", diff[0]],
+                                        f"history={hist!r}: {diff[0]}: {baseline[diff[0]]!r} -> {after[diff[0]]!r}"[:400],
+                                        {"history": hist}))
+                    continue
+                if ln == maxlen or ln == 1:
+                    for cop in COPIERS:
+                        h2 = hist + [["copyop", cop]]
+                        try:
+                            c_obj, _ = sp.replay(h2)
+                            c_after = sp.observable(c_obj)
+                        except Exception as e:
+                            t.violate(Violation(["purity", "copyop", cop, "raised-after-observers", type(e).__name__],
+                                                f"history={h2!r}: {e}"[:300], {"history": h2}))
+                            continue
+                        t.inc("transitions")
+                        d2 = [k for k in baseline if baseline[k] != c_after[k]]
+                        if d2:
+                            t.violate(Violation(["purity", "copyop", cop, "unfaithful", d2[0]],
+                                                f"history={h2!r}: {d2[0]}: {baseline[d2[0]]!r} -> {c_after[d2[0]]!r}"[:400],
+                                                {"history": h2}))
+    return t
+
+
 def run(ctx: Ctx) -> None:
     sp = space()
     res = bfs(sp, max_states=60000 if ctx.quick else 400000, max_depth=6 if ctx.quick else 40)
+    from vf.core.runner import merge_tallies, pmap_shards
+    tseq = merge_tallies(pmap_shards(_shard_sequences, 64, 2 if ctx.quick else 3))
+    for vj in tseq.violations:
+        ctx.add(Violation.from_json(vj))
     t = res["tally"]
     for vj in t.violations:
         ctx.add(Violation.from_json(vj))
     ctx.coverage.update(
         states=res["states"],
-        transitions=res["transitions"],
-        traces_validated_against_impl=res["transitions"],
+        transitions=res["transitions"] + tseq.n.get("transitions", 0),
+        traces_validated_against_impl=res["transitions"] + tseq.n.get("transitions", 0),
         exhaustive=bool(res["fixpoint"]),
         fixpoint_reached=bool(res["fixpoint"]),
         capped=bool(res["capped"]),
         bfs_depth=res["depth"],
         level_sizes=res["level_sizes"],
         initial_states=len(sp.initial_histories()),
+        observer_sequences_without_merging=tseq.n.get("sequences", 0),
+        observer_sequence_edges=tseq.n.get("transitions", 0),
         observers=OBSERVERS, copiers=COPIERS, mutators=MUTATORS,
         samples=[{"history": h} for h in res["sample_histories"]],
         rule="state = canonical complete __dict__ of the real message; every observer and copy "
